@@ -15,7 +15,7 @@ import (
 
 func init() {
 	Registry["C04"] = Set{
-		Explanation: "Decides structural clauses of link/monitor notification: L1 each of the 8 local branches of RouteLink*/RouteMonitor* consults the identity table of the target's kind (PID->processes, ProcessID->names, Alias->aliases, Event->events), returns an error on the not-found edge before any relation is added, and link functions add links / monitor functions add monitors with the function's own target; L2 every removal of an identity that can be linked or monitored is followed by the RouteTerminate* of the same kind (process release, UnregisterName, DeleteAlias, unregisterEvent, the meta termination sites, failed spawn); L3 the existence check and the relation insert are ordered or atomic against the terminator's delete-then-drain (today all 8 sites check, then insert, without re-validation: open known finding F-F); L4 each RouteTerminate* drains with exactly one CleanupTarget and sends exactly one exit per link consumer and one High-priority down per monitor consumer, each carrying the function's target and reason; remote consumers' nodes get one Terminate frame; L5 RouteUnlink*/RouteDemonitor* call the matching Remove*; L7 in the default target manager every insert/delete on the relation set is paired on every path with the matching change of the per-target index, under the write lock. Added while probing: L2c the per-process alias list the drain walks is maintained by remove-by-swap correctly; L4 also requires that the exit/down loops walk the whole consumer lists CleanupTarget returned (first result: links, second: monitors); L6 LinkChild on every spawn form adds the parent->child link after the child exists; L7 additionally: an index entry is deleted only when its list is empty; L8 the helper that delivers exits builds a mailbox message of type Exit. L9 no critical section of the default target manager's lock calls anything that takes that lock again (lock re-entrancy through the call graph). L10 lock pairing — in every function that touches the target manager's lock a forward data flow over (held read/write, unlock deferred) shows: no return while the lock is held without a deferred unlock, no unlock (explicit or deferred) of a lock that is not held or of the other kind, no second lock (a leaked lock blocks every later link/monitor/termination for ever, an unlock of an unlocked mutex is a fatal error that takes the node down). L11 every method of the default target manager that changes the relation set takes the write lock exactly once, never the read lock, and touches the maps only inside that one critical section (what a Cleanup* returns is exactly what it removed). L2c also anchors on the cut itself: a field slice cut by its first element must have saved that element into the removed slot, cut by its last one after a swap with it or a shift of the tail. L6 for local starts the parent->child link is made by spawn, under LinkChild, before the child is entered into the process table; the spawn forms hand their options through. L6p the remote spawn forms record, under LinkParent and after a successful RouteSpawn, the mirror relation (remote child -> this process) on the parent's node, which is the node that reports the parent's termination. L12 a link/monitor request on a remote target records the relation BEFORE the request goes to the peer (the add call dominates the request) and takes it back on the request's failing edge: the peer may send the termination notice as soon as it has answered, and another goroutine handles it. L13 a process is reachable for exit signals while its ProcessInit callback runs (it can be linked already: Link*, Spawn with LinkChild): spawn enters it into a table of initializing processes before ProcessInit and takes it out only after processes.Store; the exit delivery helper consults that table first and the process table second.",
+		Explanation: "Decides structural clauses of link/monitor notification: L1 each of the 8 local branches of RouteLink*/RouteMonitor* consults the identity table of the target's kind (PID->processes, ProcessID->names, Alias->aliases, Event->events), returns an error on the not-found edge before any relation is added, and link functions add links / monitor functions add monitors with the function's own target; L2 every removal of an identity that can be linked or monitored is followed by the RouteTerminate* of the same kind (process release, UnregisterName, DeleteAlias, unregisterEvent, the meta termination sites, failed spawn); L3 the existence check and the relation insert are ordered or atomic against the terminator's delete-then-drain (today all 8 sites check, then insert, without re-validation: open known finding F-F); L4 each RouteTerminate* drains with exactly one CleanupTarget and sends exactly one exit per link consumer and one High-priority down per monitor consumer, each carrying the function's target and reason; remote consumers' nodes get one Terminate frame; L5 RouteUnlink*/RouteDemonitor* call the matching Remove*; L7 in the default target manager every insert/delete on the relation set is paired on every path with the matching change of the per-target index, under the write lock. Added while probing: L2c the per-process alias list the drain walks is maintained by remove-by-swap correctly; L4 also requires that the exit/down loops walk the whole consumer lists CleanupTarget returned (first result: links, second: monitors); L6 LinkChild on every spawn form adds the parent->child link after the child exists; L7 additionally: an index entry is deleted only when its list is empty; L8 the helper that delivers exits builds a mailbox message of type Exit. L9 no critical section of the default target manager's lock calls anything that takes that lock again (lock re-entrancy through the call graph). L10 lock pairing — in every function that touches the target manager's lock a forward data flow over (held read/write, unlock deferred) shows: no return while the lock is held without a deferred unlock, no unlock (explicit or deferred) of a lock that is not held or of the other kind, no second lock (a leaked lock blocks every later link/monitor/termination for ever, an unlock of an unlocked mutex is a fatal error that takes the node down). L11 every method of the default target manager that changes the relation set takes the write lock exactly once, never the read lock, and touches the maps only inside that one critical section (what a Cleanup* returns is exactly what it removed). L2c also anchors on the cut itself: a field slice cut by its first element must have saved that element into the removed slot, cut by its last one after a swap with it or a shift of the tail. L6 for local starts the parent->child link is made by spawn, under LinkChild, before the child is entered into the process table; the spawn forms hand their options through. L6p the remote spawn forms record, under LinkParent and after a successful RouteSpawn, the mirror relation (remote child -> this process) on the parent's node, which is the node that reports the parent's termination. L12 a link/monitor request on a remote target records the relation BEFORE the request goes to the peer (the add call dominates the request) and takes it back on the request's failing edge: the peer may send the termination notice as soon as it has answered, and another goroutine handles it. L13 a process is reachable for exit signals while its ProcessInit callback runs (it can be linked already: Link*, Spawn with LinkChild): spawn enters it into a table of initializing processes before ProcessInit and takes it out only after processes.Store; the exit delivery helper consults that table first and the process table second. L13c the exit delivery helper wakes a process it found in the initializing table only behind the miss edge of a second lookup made after the push (spawn switches the process to Sleep just before it registers it: a wake-up in that moment would run and terminate an unregistered, uncounted process), and spawn counts the process in the wait group before it registers it.",
 		NotDecided: []string{
 			"behaviour of user-supplied TargetManager implementations",
 			"delivery of the notification message itself (C02), remote fan-out framing (C12/C14)",
@@ -52,6 +52,7 @@ func runC04(p *load.Program, r *core.Report) {
 	c04SingleCriticalSection(a, r)
 	remoteRelationFirst(a.P, r, "C04.L12 remote-relation-recorded-before-the-request", "C04.L12", 8, nil)
 	c04SignalsDuringInit(a, r)
+	c04NoEarlyWake(a, r)
 	lockPairing(a.P, r, "C04.L10 relation-lock-paired", "C04.L10", 11, func(o string) bool { return strings.Contains(o, "defaultTargetManager") })
 	lockReentrancy(a.P, r, "C04.L9 relation-lock-not-reentered", "C04.L9", 11, func(o string) bool { return strings.Contains(o, "defaultTargetManager") })
 }
